@@ -770,6 +770,12 @@ func (f *File) UpdateSidx(addIfNotExists, nonZeroEPT bool) error {
 		sidx = &SidxBox{}
 	}
 	fillSidx(sidx, refTrak, segDatas, nonZeroEPT)
+	if exists {
+		// Further top-level sidx boxes are written between this one and the first segment
+		for _, otherSidx := range f.Sidxs[1:] {
+			sidx.FirstOffset += otherSidx.Size()
+		}
+	}
 	if !exists {
 		err = insertSidx(f, segDatas, sidx)
 		if err != nil {
